@@ -282,7 +282,7 @@ def run(ctx, budget):
     # fixed share, both tiers: histories on one Model (every solve through the SAT encoder)
     hs = []
     for _ in range(500 * budget):
-        h = K.gen_history(ctx.rng, big=True)
+        h = K.gen_history(ctx.rng, big=False)
         for rnd in h["history"]:
             rnd["solver"] = "sat"
             rnd["limit"] = 1
